@@ -15,6 +15,8 @@ def run(chk, replay=None):
     progs = corelib.gen_programs(chk, n, "gprog", size=28 if quick else 45)
     # a second family with larger programs and fewer of them
     progs += corelib.gen_programs(chk, 30 if quick else 400, "gbig", size=70 if quick else 140)
+    # witnesses of nested sum / product type that are only partly inspected (the node type is smaller than the declared type)
+    progs += corelib.partial_witness_programs(chk, 60 if quick else 1500, "pw")
     rejected = []
     acc = corelib.check_terms(chk, progs, on_reject=lambda g, a: rejected.append((g, a)))
     for g, a in rejected:
@@ -24,7 +26,7 @@ def run(chk, replay=None):
                        "broken": "a program generated from the typing rules of the book is rejected by the front end (C04) — or the generator is wrong"})
     forms = {}
     for g in acc:
-        for f in g.forms:
+        for f in getattr(g, "forms", ()):
             forms[f] = forms.get(f, 0) + 1
     chk.extra["forms_histogram"] = forms
     chk.extra["programs"] = len(acc)
